@@ -267,7 +267,7 @@ void vf::run_case(Src &s, Ctx &c)
     VCHECK(c, std::isfinite(d) && d >= 0, "C14/finite" + fam, "distance %.17g", d);
     const double slack = 1e-5 * (rho + d);
     // below the solvers' 1e-6 grain (in units of rho) the "curve" is a straight piece whatever the direction: not judged
-    if (eu < 1e-5 * std::max(1.0, rho))
+    if (eu < 1e-5 * std::max(1.0, rho) && std::fabs(wrapPi(a.th - b.th)) < 1e-5)
     {
         c.count("unjudged:poses-below-solver-eps");
         c.nontrivial = false;
